@@ -112,7 +112,12 @@ struct GenState {
       BreakPoint bp = this->out.line_info[this->getNextPos() - 1];
       this->out.line_info.erase(
           this->out.line_info.find(this->getNextPos() - 1));
-      this->out.potential_breaks.erase(this->out.potential_breaks.find(bp));
+      // remove only this site; the line may own further sites
+      auto sites = this->out.potential_breaks.find(bp);
+      if (sites != this->out.potential_breaks.end()) {
+        std::erase(sites->second, this->getNextPos() - 1);
+        if (sites->second.empty()) this->out.potential_breaks.erase(sites);
+      }
       out.code.pop_back();
     }
   }
